@@ -326,6 +326,45 @@ pub fn vary(scns: Vec<Scenario>) -> Vec<Scenario> {
     out
 }
 
+/// Host with a spectator, one remote player that drops (dies, or is disconnected explicitly):
+/// host->spectator Input packets around the round in which the host registers the drop are
+/// choice points (delay by 2 or 4 rounds, drop), so that stale and fresh packets reach the
+/// spectator in every order.
+pub fn spectator_reorder_scenarios(class: &str) -> Vec<Scenario> {
+    let mut scns = Vec::new();
+        for (tp, w) in [("1+1", 2usize), ("1+2", 8), ("1+1", 0)] {
+            for explicit in [false, true] {
+                let mut s = base_scn(class, tp, w, 0, false, Pred::RepeatLast, Program::Changing, 1);
+                for p in s.peers.iter_mut() {
+                    p.notify_ms = 50;
+                    p.timeout_ms = 150;
+                }
+                let mut sp = SpecSpec::new(20, s.peers[0].addr);
+                sp.notify_ms = 50;
+                sp.timeout_ms = 1000;
+                s.specs.push(sp);
+                let a = s.peers[0].addr;
+                let reg_round = if explicit {
+                    let h = s.peers[1].locals[0];
+                    s.script.push(ScriptItem { round: 8, node: 0, action: Action::Disconnect { handle: h } });
+                    8
+                } else {
+                    s.script.push(ScriptItem { round: 4, node: 1, action: Action::Die });
+                    // timeout 150 ms = 9 rounds after the last packet (handed over in round 4)
+                    14
+                };
+                s.fault = packet_faults(reg_round - 3, 7, CLASS_INPUT, vec![Fate::Delay(2), Fate::Delay(4), Fate::Drop], 0);
+                s.fault.links = vec![(a, 20)];
+                s.name = format!("{} explicit={explicit}", s.name);
+                s.horizon = reg_round + 6;
+                s.probe = 50;
+                s.checks = CK_DROP;
+                scns.push(s);
+            }
+        }
+    scns
+}
+
 pub fn c07() -> i32 {
     let mut rep = Report::new("C07", "fault_enumeration");
     let t = rep.thorough();
@@ -370,37 +409,7 @@ pub fn c07() -> i32 {
     }
     // ---- reordering of host->spectator packets around the moment the host registers the drop
     {
-        let mut scns = Vec::new();
-        for (tp, w) in [("1+1", 2usize), ("1+2", 8), ("1+1", 0)] {
-            for explicit in [false, true] {
-                let mut s = base_scn("drop-spectator-reorder", tp, w, 0, false, Pred::RepeatLast, Program::Changing, 1);
-                for p in s.peers.iter_mut() {
-                    p.notify_ms = 50;
-                    p.timeout_ms = 150;
-                }
-                let mut sp = SpecSpec::new(20, s.peers[0].addr);
-                sp.notify_ms = 50;
-                sp.timeout_ms = 1000;
-                s.specs.push(sp);
-                let a = s.peers[0].addr;
-                let reg_round = if explicit {
-                    let h = s.peers[1].locals[0];
-                    s.script.push(ScriptItem { round: 8, node: 0, action: Action::Disconnect { handle: h } });
-                    8
-                } else {
-                    s.script.push(ScriptItem { round: 4, node: 1, action: Action::Die });
-                    // timeout 150 ms = 9 rounds after the last packet (handed over in round 4)
-                    14
-                };
-                s.fault = packet_faults(reg_round - 3, 7, CLASS_INPUT, vec![Fate::Delay(2), Fate::Delay(4), Fate::Drop], 0);
-                s.fault.links = vec![(a, 20)];
-                s.name = format!("{} explicit={explicit}", s.name);
-                s.horizon = reg_round + 6;
-                s.probe = 50;
-                s.checks = CK_DROP;
-                scns.push(s);
-            }
-        }
+        let scns = spectator_reorder_scenarios("drop-spectator-reorder");
         let k = if t { 3 } else { 2 };
         let n = scns.len();
         let cfg = ExploreCfg { k: Some(k), wall: Duration::from_secs(if t { 900 } else { 30 }), ..Default::default() };
